@@ -30,6 +30,7 @@ class TLCResult:
     violated: list = field(default_factory=list)  # names of violated invariants/properties
     printed: list = field(default_factory=list)  # raw PrintT payload lines
     coverage: dict = field(default_factory=dict)  # action name -> (distinct, total)
+    coverage_list: list = field(default_factory=list)
     error: str = ""
 
     @property
@@ -122,6 +123,8 @@ def run(
         r.violated.append("PROPERTY")
     for m in _COV.finditer(out):
         r.coverage[m.group(1)] = (int(m.group(2)), int(m.group(3)))
+    # disjuncts of one action are reported under the same name with their position: keep all of them
+    r.coverage_list = [(m.group(1), int(m.group(2)), int(m.group(3))) for m in _COV.finditer(out)]
     # machinery errors
     bad_markers = [
         "Parsing or semantic analysis failed",
